@@ -168,7 +168,15 @@ def check(ctx):
             kws = {k.arg: ast.unparse(k.value) for k in n.keywords}
             ctx.check(kws.get("random_state") == "self.seed", "R4.2", "train_test_split seeded with Simulator.seed",
                       n, sim, "random_state=%s" % kws.get("random_state"))
-    ctx.floor("R4.2", "train_test_split sites", n_split, 2)
+    # the split may be one call per context scenario or one call over a list of operands (`*arrays`): what must not
+    # drop is the number of scenarios (with / without contexts) in which the random split reaches a seeded call
+    from . import splitform as SF
+    n_scen = 0
+    for (ordered, has_ctx), s in SF.scenarios(sim.node).items():
+        if not ordered and s.calls:
+            n_scen += 1
+    ctx.floor("R4.2", "train_test_split sites", n_split, 1)
+    ctx.floor("R4.2", "context scenarios in which the random split reaches a train_test_split call", n_scen, 2)
     ctx.floor("R4.2", "estimator constructions on traces", n_est, 20)
     ctx.floor("R4.1", "generator seed flows checked", n_seeds, 100)
     ctx.floor("R4.4", "store events examined", n_stores, 3000)
